@@ -12,3 +12,7 @@ let () =
 let () =
   register "lockfiles" (fun idx _ -> Printf.printf "lockfiles %d ok=* n=*\n" idx);
   register "unlockfiles" (fun idx _ -> Printf.printf "unlockfiles %d n=*\n" idx)
+
+(* symlink: the model's file system has no links (cases that use one are oracle-only); the line keeps the transcripts aligned *)
+let () =
+  register "symlink" (fun idx _ -> Printf.printf "obs %d outcome=nocall errors=0 logs=- writes=- line=0\n" idx)
